@@ -54,6 +54,17 @@ func c19Cases(timeout float64) []c19Case {
 		// ends up in fan2go's log)
 		{Mode: "exit3-with-many-stderr-lines", script: "yes x | head -c 200000 >&2; exit 3", mustErr: true},
 		{Mode: "many-stdout-lines", script: "yes x | head -c 200000", mayOutput: true, mayErr: true, anyOut: true},
+		// ... and the same amounts without a single line break, or with a line break only far into the text (a JSON or hex
+		// blob, a "\r" progress bar), and at the sizes around what fan2go keeps of it for its log
+		{Mode: "exit3-with-one-long-stderr-line", script: "head -c 100000 /dev/zero | tr '\\0' 'x' >&2; exit 3", mustErr: true},
+		{Mode: "exit3-with-long-first-stderr-line", script: "head -c 5000 /dev/zero | tr '\\0' 'x' >&2; echo >&2; echo detail >&2; exit 3", mustErr: true},
+		{Mode: "exit3-with-2048-stderr-bytes", script: "head -c 2048 /dev/zero | tr '\\0' 'x' >&2; exit 3", mustErr: true},
+		{Mode: "exit3-with-2049-stderr-bytes", script: "head -c 2049 /dev/zero | tr '\\0' 'x' >&2; exit 3", mustErr: true},
+		{Mode: "exit3-with-2049-stderr-bytes-ending-in-a-line-break", script: "head -c 2048 /dev/zero | tr '\\0' 'x' >&2; echo >&2; exit 3", mustErr: true},
+		{Mode: "exit3-with-stderr-starting-with-a-line-break", script: "echo >&2; head -c 5000 /dev/zero | tr '\\0' 'x' >&2; exit 3", mustErr: true},
+		{Mode: "exit1-with-binary-stderr", script: "head -c 5000 /dev/urandom >&2; exit 1", mustErr: true},
+		{Mode: "exit0-with-one-long-stderr-line", script: "head -c 100000 /dev/zero | tr '\\0' 'x' >&2; echo 42", wantOut: "42", mayOutput: true, mayErr: true},
+		{Mode: "one-long-stdout-line", script: "head -c 100000 /dev/zero | tr '\\0' 'x'", mayOutput: true, mayErr: true, anyOut: true},
 		{Mode: "exit0-with-many-stderr-lines", script: "yes 'warning: retry' | head -c 200000 >&2; echo 42", wantOut: "42", mayOutput: true},
 		{Mode: "killed-by-signal", script: "kill -9 $$", mustErr: true},
 		{Mode: "not-executable", mustErr: true},
@@ -327,7 +338,8 @@ func init() {
 				case "not-executable", "missing-interpreter", "exit1-with-output", "grandchild-holds-stdout", "sleep-beyond-deadline-child", "non-numeric-output", "empty-output", "ok", "ok-with-stderr", "text-file-busy",
 					"blank-output-space", "blank-output-tab", "blank-output-crlf", "blank-output-lines", "value-with-unit",
 					"missing", "symlink-loop", "parent-is-a-file", "name-too-long", "is-a-directory", "dangling-symlink",
-					"many-stdout-lines", "exit3-with-many-stderr-lines", "no-shebang-sleeps-beyond-deadline", "grandchild-holds-stdout-only":
+					"many-stdout-lines", "exit3-with-many-stderr-lines", "no-shebang-sleeps-beyond-deadline", "grandchild-holds-stdout-only",
+					"exit3-with-one-long-stderr-line", "exit3-with-long-first-stderr-line", "exit3-with-stderr-starting-with-a-line-break":
 				default:
 					if !ctx.Thorough() {
 						continue
@@ -336,7 +348,7 @@ func init() {
 				c.TimeoutS = 2
 				c.Via = via
 				// through the wrappers garbage output must surface as an error, except for SetPwm which ignores the output
-				if via != "CmdFan.SetPwm" && (c.Mode == "non-numeric-output" || c.Mode == "empty-output" || c.Mode == "ok-multiline" || c.Mode == "huge-output" || c.Mode == "many-stdout-lines" || strings.HasPrefix(c.Mode, "blank-output")) {
+				if via != "CmdFan.SetPwm" && (c.Mode == "non-numeric-output" || c.Mode == "empty-output" || c.Mode == "ok-multiline" || c.Mode == "huge-output" || c.Mode == "many-stdout-lines" || c.Mode == "one-long-stdout-line" || strings.HasPrefix(c.Mode, "blank-output")) {
 					c.mustErr = true
 				}
 				cases = append(cases, c)
